@@ -564,6 +564,18 @@ Proof.
   - vm_compute. reflexivity.
 Qed.
 
+(** Why [wf_cop] asks for [Close false]: the close decision trusts Conn.handshakeComplete.  If that flag were
+    set while the handler still considers the address unvalidated, the CONNECTION_CLOSE is written whatever the
+    counters say.  (The code sets handshakeComplete while processing the client's Finished, a few statements
+    before sentPacketHandler.ReceivedPacket(Handshake) for the same packet; an error in between closes in that
+    window.  The address is validated in RFC terms then — a Handshake packet was decrypted.) *)
+Example close_with_handshake_flag_unbounded :
+  let '(c, last) := crun_g (cinit false 200000000, 0)
+        [ SphOp (Recv 1200 1); SphOp (TrySend 2 [(amp_EncInitial, 1200, true)]); SphOp (TrySend 2 [(amp_EncHandshake, 1200, true)]);
+          SphOp (TrySend 2 [(amp_EncHandshake, 3000, true)]); Close true 100 ] in
+  validated (sph c) = false /\ wireSent c = 5500 /\ 3 * wireRcvd c + last = 3700.
+Proof. vm_compute. repeat split; reflexivity. Qed.
+
 (** Non-vacuity: a history that reaches the limit, is blocked, is unblocked by a small
     client datagram, sends again, and is validated by a Handshake packet. *)
 Definition example_ops : list op :=
